@@ -16,6 +16,7 @@ import RtrModel.Hashlin
 import RtrModel.PduConv
 import RtrModel.Spki
 import RtrModel.Proto
+import RtrProofs.CLinkIo
 
 open Rtr Rtr.Gen Rtr.Proto Rtr.P
 
@@ -121,6 +122,31 @@ def step (line : String) : String :=
       reply (showOpt (fun x => toString x.toNat) (C.key_entry_cmp (mk a1 k1 p1 s1) (mk a2 k2 p2 s2)))
             (if SpkiTable.cmp (mr a1 k1 p1 s1) (mr a2 k2 p2 s2) then "0" else "1")
     | _, _, _, _, _, _, _, _ => "bad-op"
+  | [fn, len, timeout, script] =>
+    -- send_all / recv_all <len> <timeout> <c0,c1:a1,c2:a2,...>: first clock reading, then (reading:answer) per round;
+    -- beyond the script the clock stands still and the transport answers -1
+    if fn ≠ "send_all" ∧ fn ≠ "recv_all" then "bad-op" else
+    match len.toNat?, timeout.toInt?, script.splitOn "," with
+    | some len, some timeout, c0 :: rounds =>
+      match c0.toNat?, rounds.mapM (fun r => match r.splitOn ":" with
+                                        | [c, a] => (do let c ← c.toNat?; let a ← a.toInt?; pure (c, a))
+                                        | _ => none) with
+      | some c0, some rs =>
+        let clocks : List Nat := c0 :: rs.map (·.1)
+        let answers : List Int := rs.map (·.2)
+        let w : C.World := { clock := fun i => BitVec.ofNat 64 (clocks.getD i (clocks.getLastD 0)),
+                             io := fun i => BitVec.ofInt 32 (answers.getD i (-1)) }
+        let pdu := 1000
+        let r := if fn = "send_all" then C.tr_send_all w (fun _ => 0) (pdu + len) { } pdu (BitVec.ofNat 64 len) (BitVec.ofInt 64 timeout)
+                 else C.tr_recv_all w (fun _ => 0) (pdu + len) { } pdu (BitVec.ofNat 64 len) (BitVec.ofInt 64 timeout)
+        let showCalls (cs : List (Nat × Int × Int)) : String := ";".intercalate (cs.map fun c => s!"{c.1}/{c.2.1}/{c.2.2}")
+        let g := showOpt (fun x : BitVec 32 × C.World => s!"{x.1.toInt}|" ++ showCalls (x.2.calls.map fun c => (c.1, (c.2.1.toNat : Int), c.2.2.toInt))) r
+        let steps : List (Int × Int) := (rs.map fun p => ((p.1 : Int), p.2)) ++ List.replicate (len + 2) ((clocks.getLastD 0 : Int), (-1 : Int))
+        let m := showOpt (fun x : Int × List CLink.IoCall => s!"{x.1}|" ++ showCalls (x.2.map fun c => (c.buf, (c.len : Int), c.tmo)))
+                   (CLink.ioAll pdu len (c0 : Int) timeout steps)
+        reply g m
+      | _, _ => "bad-op"
+    | _, _, _ => "bad-op"
   | ["pdu_type", hex] =>
     match hexToBytes? hex with
     | some raw =>
